@@ -140,6 +140,21 @@ func (c *Ctx) c07Structured() {
 	n := c.vol(150, 2500)
 	for i := 0; i < n; i++ {
 		h := randHeader(c.rng)
+		if i%25 == 3 {
+			// lines longer than any reader's buffer: one long argument, or very many short ones; a long body
+			st := &format.Stanza{Type: randArg(c.rng), Body: c.rng.bytes([]int{0, 48, 5000}[c.rng.intn(3)])}
+			switch c.rng.intn(3) {
+			case 0:
+				st.Args = []string{strings.Repeat("a", []int{4070, 4090, 4096, 4097, 5000, 9000, 70000}[c.rng.intn(7)])}
+			case 1:
+				for k := 0; k < 1500+c.rng.intn(2000); k++ {
+					st.Args = append(st.Args, "x")
+				}
+			default:
+				st.Type = strings.Repeat("T", 4096+c.rng.intn(100))
+			}
+			h.Recipients = append(h.Recipients, st)
+		}
 		var buf bytes.Buffer
 		h.Marshal(&buf)
 		m := c.model.Call("marshal", headerSx(h))
@@ -267,7 +282,7 @@ func (c *Ctx) c07Stanzas() {
 }
 
 func checkC07(c *Ctx) {
-	c.rule = "inputs: (a) ALL strings over {-,>,space,LF,A,Q,=,CR,a} up to the tier's length inserted between the intro line and a valid MAC line, and as the text after one stanza; (b) random well-formed headers (0-3 stanzas, 0-4 args, body lengths around multiples of 48 and 768) marshalled by both sides, parsed back, and mutated (bit flip, delete, insert/replace special byte, duplicate/drop line, CRLF, re-wrap, join lines); (c) every truncation of one header; (d) single stanzas through StanzaReader. Each input is parsed by the implementation in 3-5 delivery modes and by the model. distinct_nontrivial = distinct inputs that are accepted or have at least two lines."
+	c.rule = "inputs: (a) ALL strings over {-,>,space,LF,A,Q,=,CR,a} up to the tier's length inserted between the intro line and a valid MAC line, and as the text after one stanza; (b) random well-formed headers (0-3 stanzas, 0-4 args, body lengths around multiples of 48 and 768; every 25th with an argument line of 4-70 KB) marshalled by both sides, parsed back, and mutated (bit flip, delete, insert/replace special byte, duplicate/drop line, CRLF, re-wrap, join lines); (c) every truncation of one header; (d) single stanzas through StanzaReader. Each input is parsed by the implementation in 3-5 delivery modes and by the model. distinct_nontrivial = distinct inputs that are accepted or have at least two lines."
 	c.c07Exhaustive()
 	c.c07Structured()
 	c.c07Stanzas()
